@@ -56,6 +56,9 @@ def _numeric_composite(out):
         if c[k].u > 0 and math.isfinite(c[k].u):
             lower = c[k - 1]
             extra = (8.0 * EPS * lower.e * (fact / k) / NUM_H + 4.0 * (lower.u if math.isfinite(lower.u) else 0.0) * (fact / k) / NUM_H) / fact
+            if k == 2 and c[1].u > 0:
+                # second difference of the combined value
+                extra += 16.0 * EPS * (c[0].e + abs(c[0].v)) / (NUM_H * NUM_H) / 2.0
             c[k] = EN(c[k].v, c[k].e, c[k].u + extra)
             changed = True
     return Jet(c) if changed else out
@@ -204,7 +207,7 @@ class Ref(object):
         has = b.get("has", 0)
         if n == 0 or has >= 2:
             return self.custom_call(b["name"], [x] + [_jconst(p, n) for p in b["p"]], trace)
-        top = min(4, max(n, 3 + has))
+        top = min(4, max(n, 3 + has, n + 2))
         big = Jet(list(x.c) + [EN(0.0)] * (top - n)) if n < top else x
         full = self.custom_call(b["name"], [big] + [_jconst(p, top) for p in b["p"]], trace)
         c = list(full.c[:n + 1])
@@ -214,8 +217,14 @@ class Ref(object):
             u1 = 8.0 * EPS * c0.e / NUM_H + NUM_H * NUM_H * abs(full.d(3).v) / 24.0 + 4 * c0.u / NUM_H
             u1 += 4.0 * EPS * abs(c[1].v) + 1e-300    # never exactly 0: marks the component as numerically differentiated
             c[1] = EN(c[1].v, c[1].e, c[1].u + u1)
-            for k in range(2, n + 1):
-                # a numerical derivative of a numerical derivative: unreliable
+            if n >= 2:
+                # a numerical derivative of a numerical derivative (the documented fallback applied twice, h = 1e-6):
+                # (f(r+h) - 2 f(r) + f(r-h)) / h^2 resolves f'' to about eps |f| / h^2 ~ 1e-3 |f| only - coarse, but
+                # enough to tell whether the component contributes its second derivative at all
+                u2 = 16.0 * EPS * (c0.e + abs(c0.v)) / (NUM_H * NUM_H) + NUM_H * NUM_H * abs(full.d(4).v) / 6.0 \
+                    + 8.0 * c0.u / (NUM_H * NUM_H) + 1e-300
+                c[2] = EN(c[2].v, c[2].e, c[2].u + u2 / 2.0)
+            for k in range(3, n + 1):
                 c[k] = EN(c[k].v, c[k].e, inf)
         else:
             if n >= 2:
